@@ -1092,15 +1092,21 @@ func (r *Runner) doSaveLoad(a *Action) error {
 			if r.known("D7-load-warmup-resets-deadline", r.Cfg.Expiry == ExpAccessing || r.Cfg.Expiry == ExpCustom) {
 				continue
 			}
+			if r.known("KF-load-drops-never-deadline", s.ExpiresAtNano == math.MaxInt64) {
+				continue
+			}
 			return r.fail(FRet, "save/load: key %d loaded with ExpiresAtNano %d, source had %d (load time %d)", k, g.ExpiresAtNano, s.ExpiresAtNano, t2)
 		}
 		if r.Cfg.Refresh != RefNone {
 			if s.RefreshableAtNano > t2 {
 				if g.RefreshableAtNano != s.RefreshableAtNano {
-					return r.fail(FRet, "save/load: key %d loaded with RefreshableAtNano %d, source had %d (load time %d)", k, g.RefreshableAtNano, s.RefreshableAtNano, t2)
+					if r.known("KF-load-drops-never-deadline", s.RefreshableAtNano == math.MaxInt64) {
+						continue
+					}
+					return r.failFirst([]Facet{FRet, FRefresh}, "save/load: key %d loaded with RefreshableAtNano %d, source had %d (load time %d)", k, g.RefreshableAtNano, s.RefreshableAtNano, t2)
 				}
 			} else if g.RefreshableAtNano > t2+1 {
-				return r.fail(FRet, "save/load: key %d was due for refresh (at %d) but was loaded with RefreshableAtNano %d (load time %d)", k, s.RefreshableAtNano, g.RefreshableAtNano, t2)
+				return r.failFirst([]Facet{FRet, FRefresh}, "save/load: key %d was due for refresh (at %d) but was loaded with RefreshableAtNano %d (load time %d)", k, s.RefreshableAtNano, g.RefreshableAtNano, t2)
 			}
 		}
 	}
